@@ -118,12 +118,20 @@ def run(rep, pid, prop_file, gen, n_quick, n_thorough, disciplines, oracle, rule
         # (a search aid that can only produce a genuine failing input, never the deciding method)
         nd = direct if rep.tier == 'quick' else direct * 10
         checked = 0
+        per_kind = {}
         for hi, (name, ul, script, meta, ol) in enumerate(hists):
-            if checked >= nd:
-                break
             if name.startswith('row'):
                 continue
-            checked += 1
+            if name.startswith('scen:'):
+                # one instance (three in thorough runs) of every scenario kind, whatever the sample size
+                kind = name.rstrip('0123456789')
+                per_kind[kind] = per_kind.get(kind, 0) + 1
+                if direct == 0 or per_kind[kind] > (2 if rep.tier == 'quick' else 6):
+                    continue
+            elif checked >= nd:
+                continue
+            else:
+                checked += 1
             lines = [l for l, k in script if not l.startswith(('u_', 'commit'))]
             eng_impl.set_penalty_base(0.5)
             try:
